@@ -337,8 +337,11 @@ func And(a, b *Term) *Term {
 		}
 		return a
 	}
-	if a == b {
+	if a == b || deepSame(a, b) {
 		return a
+	}
+	if (a.op == ONot && deepSame(a.args[0], b)) || (b.op == ONot && deepSame(b.args[0], a)) {
+		return tFalse
 	}
 	return newTerm(OAnd, SBool, a, b)
 }
@@ -356,8 +359,11 @@ func Or(a, b *Term) *Term {
 		}
 		return a
 	}
-	if a == b {
+	if a == b || deepSame(a, b) {
 		return a
+	}
+	if (a.op == ONot && deepSame(a.args[0], b)) || (b.op == ONot && deepSame(b.args[0], a)) {
+		return tTrue
 	}
 	return newTerm(OOr, SBool, a, b)
 }
@@ -384,6 +390,20 @@ func Ite(c, a, b *Term) *Term {
 		panic(fmt.Sprintf("ite sorts differ: %v %v", a.sort, b.sort))
 	}
 	if a.sort == SBool {
+		// ite(c, c, b) = ite(c, true, b); ite(c, a, c) = ite(c, a, false); same with negations
+		if deepSame(a, c) {
+			a = tTrue
+		} else if a.op == ONot && deepSame(a.args[0], c) || c.op == ONot && deepSame(c.args[0], a) {
+			a = tFalse
+		}
+		if deepSame(b, c) {
+			b = tFalse
+		} else if b.op == ONot && deepSame(b.args[0], c) || c.op == ONot && deepSame(c.args[0], b) {
+			b = tTrue
+		}
+		if a.op == OConst && b.op == OConst && a.val == b.val {
+			return a
+		}
 		if a.IsTrue() && b.IsFalse() {
 			return c
 		}
